@@ -10,6 +10,7 @@ def handle (line : String) : String :=
   | "PPARSE" :: rest => Path.parseLine rest
   | "PSTRINGIFY" :: rest => Path.stringifyLine rest
   | "PLE" :: rest => Path.leLine rest
+  | "NDIST" :: rest => Dist.ndistLine rest
   | _ => "bad-op"
 
 partial def loop (h : IO.FS.Stream) (out : IO.FS.Stream) : IO Unit := do
